@@ -75,17 +75,20 @@ def seeded_table():
         check = r.get("check", "not run")
         if sid in FIRST_MISSED:
             check += " (missed at first; strengthened: %s)" % FIRST_MISSED[sid]
+        if m.get("neutralised_by"):
+            check = "DETECTED before the F01b repair; **neutralised by it**: on the current tree the demonstration passes with the change (no longer property-breaking)"
         if m.get("outside_properties"):
             check += " - **outside the listed properties**: " + esc(m["outside_properties"])[:400]
         by = esc(r.get("by", ""))[:150]
         rows.append("| %s | %s | %s | %s | %s | %s | %s |" % (sid, m.get("property"), files, txt, tests, check, by))
         n += 1
-        det += 1 if r.get("check") == "DETECTED" else 0
+        det += 1 if (r.get("check") == "DETECTED" and not m.get("neutralised_by")) else 0
     rows.append("")
     rows.append("%d seeded changes kept, %d detected by the quick tier of the registered checks at seed 1 (%d of them only after the check was strengthened); "
-                "%d are recorded as outside the listed properties." % (
+                "%d are recorded as outside the listed properties, %d were neutralised by a later repair of /repo." % (
         n, det, sum(1 for k in FIRST_MISSED if res.get(k, {}).get("check") == "DETECTED"),
-        sum(1 for d in glob.glob(V + "/seeded/*/meta.json") if json.load(open(d)).get("outside_properties"))))
+        sum(1 for d in glob.glob(V + "/seeded/*/meta.json") if json.load(open(d)).get("outside_properties")),
+        sum(1 for d in glob.glob(V + "/seeded/*/meta.json") if json.load(open(d)).get("neutralised_by"))))
     return "\n".join(rows)
 
 
